@@ -755,9 +755,6 @@ def check_program(exprs, gen, res, bump, nscenes, seed):
                         # TruncatedNormal (scipy) samples are numpy.float64; numpy.float64 * Vector is computed by
                         # numpy and yields an ndarray instead of a Vector (value right, type wrong)
                         key = "distributions.numpy-float64-sample-times-vector-gives-ndarray"
-                if key is None and random_self_scalarop(e):
-                    # (the un-sampled coordinates leak into the value, or into later arithmetic on it)
-                    key = "vectors.scalarOperator-ignores-random-self"
                 if key is None and "// 1)" in text:
                     FLOORDIV_ONE_IS_IDENTITY[0] = True
                     try:
@@ -767,6 +764,9 @@ def check_program(exprs, gen, res, bump, nscenes, seed):
                         pass
                     finally:
                         FLOORDIV_ONE_IS_IDENTITY[0] = False
+                if key is None and random_self_scalarop(e):
+                    # (the un-sampled coordinates leak into the value, or into later arithmetic on it)
+                    key = "vectors.scalarOperator-ignores-random-self"
                 res["violations"].append(
                     {
                         "key": key,
